@@ -25,8 +25,8 @@ PROPERTY = "C10"
 RULE = (
     "configuration lattice: engine seed {0,1,VERIF_SEED-derived} x chains x (kernels, quantity generators) x "
     "schedule (epoch-type sequences up to the tier's length, durations/thinning from a small set) x chunk (every "
-    "divisor of the gcd) x jitter {none, key-ignoring, key-using} x initial state {replicated, per-chain}. Part 1: "
-    "for every (schedule, chunk) the product chains x jitter x init is walked with a rotating stride (quick 3/9, "
+    "divisor of the gcd) x jitter {none, element-wise, non-element-wise (sum), key-using} x initial state {replicated, per-chain}. Part 1: "
+    "for every (schedule, chunk) the product chains x jitter x init is walked with a rotating stride (quick 5/11, "
     "thorough 5) while (kernels, generators), seed and perturbed chain cycle; part 2: the complete product "
     "(kernels, generators) x chains x jitter x init on reference schedules with every chain perturbed. Each "
     "configuration = 2-3 + #perturbed complete engine runs (int seed [twice], PRNGKey form, perturbed chains) on "
@@ -106,6 +106,7 @@ def _seeds(seed):
     return [0, 1, 2 + 7919 * (seed + 1)]
 
 
+JITTERS = ["none", "det", "sum", "key"]
 KQ_QUICK = [(1, 0), (2, 1), (2, 2), (1, 2)]
 KQ_THOROUGH = [(1, 0), (1, 1), (2, 1), (2, 2), (1, 2), (3, 1)]
 
@@ -126,11 +127,12 @@ def bounds(tier):
         "schedules": len(_schedules(tier)),
         "schedule_len_max": 2 if tier == "quick" else 3,
         "chunk": "every divisor of gcd(durations); gcd through EngineBuilder.build(), smaller ones through the Engine constructor with the builder's seeds/states",
-        "jitter": ["none", "det", "key"],
+        "jitter": JITTERS,
+        "cross_interpreter": "2 configurations (3 tracer kernels + 1 generator; RW on 2 float keys; key-using jitter on every position key) re-run in fresh interpreters under PYTHONHASHSEED values that give distinct iteration orders of set(position keys)",
         "init": ["replicated", "multi"],
         "real_kernel_sets": [n for n, _ in (REAL_SETS[:3] if tier == "quick" else REAL_SETS)],
         "lineage": {"fanout": 4, "depth": 2},
-        "part1_stride": {"quick": "3 (one epoch) / 9 (two epochs)", "thorough": 5}[tier],
+        "part1_stride": {"quick": "5 (one epoch) / 11 (two epochs)", "thorough": 5}[tier],
         "tracer_cases": len(tracer_cases(tier, 0)),
         "real_kernel_cases": len(real_cases(tier, 0)),
     }
@@ -139,7 +141,7 @@ def bounds(tier):
 def tracer_cases(tier, seed):
     """
     Part 1 (schedule lattice): for every (schedule, chunk) the product chains x jitter x
-    init is walked; quick takes every 3rd (single-epoch schedules) / 9th (two-epoch
+    init is walked; quick takes every 5th (single-epoch schedules) / 11th (two-epoch
     schedules) point and thorough every 5th point of the (larger) product with an offset that
     rotates from one (schedule, chunk) to the next, so every value of every factor meets
     every schedule. (kernels, generators), the seed, the perturbed chain and whether
@@ -157,8 +159,8 @@ def tracer_cases(tier, seed):
     pair = 0
     for sch in scheds:
         for chunk in _divisors(_gcd(sch)):
-            stride = 5 if tier != "quick" else (3 if len(sch) == 1 else 9)
-            pts = list(itertools.product(chains_l, ["none", "det", "key"], ["replicated", "multi"]))
+            stride = 5 if tier != "quick" else (5 if len(sch) == 1 else 11)
+            pts = list(itertools.product(chains_l, JITTERS, ["replicated", "multi"]))
             for i, (chains, jitter, init) in enumerate(pts):
                 if (i + pair) % stride != 0:
                     continue
@@ -172,7 +174,7 @@ def tracer_cases(tier, seed):
     if tier == "quick":
         refs = refs[:1]
     for sch in refs:
-        for (nk, nq), chains, jitter, init in itertools.product(kq_l, chains_l, ["none", "det", "key"], ["replicated", "multi"]):
+        for (nk, nq), chains, jitter, init in itertools.product(kq_l, chains_l, JITTERS, ["replicated", "multi"]):
             for chunk in (_divisors(_gcd(sch)) if tier != "quick" else [_gcd(sch)]):
                 s = seeds[n % len(seeds)]
                 n += 1
@@ -194,11 +196,11 @@ def real_cases(tier, seed):
         sets = REAL_SETS
     n = 0
     for si, ((name, _), sch, chains) in enumerate(itertools.product(sets, scheds, chains_l)):
-        combos = list(itertools.product(["det", "key"], ["replicated", "multi"]))
+        combos = list(itertools.product(["det", "sum", "key"], ["replicated", "multi"]))
         if tier == "quick":
-            # two of the four (jitter, init) points per kernel set, Latin: every jitter
-            # kind and every init form occurs with every kernel set
-            combos = [combos[0], combos[3]] if si % 2 == 0 else [combos[1], combos[2]]
+            # two of the six (jitter, init) points per kernel set, rotating: every jitter
+            # kind and both init forms occur
+            combos = [[combos[0], combos[5]], [combos[3], combos[4]], [combos[1], combos[2]]][si % 3]
         for jitter, init in combos:
             s = seeds[n % len(seeds)]
             n += 1
@@ -359,6 +361,15 @@ def lib():
 
 
 def _jitter_fns(kind, names, float_names=()):
+    """
+    Jitter functions of the lattice. All of them are written with ``...`` indexing so
+    that they also *work* when the builder (wrongly) hands them the stacked
+    [chains, ...] value or one key for all chains - the wrong RESULT is then observed by
+    the oracles instead of an exception inside harness code.
+      det  element-wise, key-ignoring
+      sum  NOT element-wise (adds the sum of all entries of the value), key-ignoring
+      key  key-using; the key words are stored in the value itself
+    """
     L = lib()
     jnp = L["jnp"]
     jax = L["jax"]
@@ -366,22 +377,30 @@ def _jitter_fns(kind, names, float_names=()):
         return None
 
     def det_u(key, val):
-        return val.at[0].set(val[0] * jnp.uint32(2) + jnp.uint32(7))
+        return val.at[..., 0].set(val[..., 0] * jnp.uint32(2) + jnp.uint32(7))
+
+    def sum_u(key, val):
+        return val.at[..., 0].set(val[..., 0] + jnp.sum(val, dtype=jnp.uint32))
 
     def key_u(key, val):
-        return jnp.stack([val[0] + (key[0] ^ key[1]), key[0], key[1]]).astype(jnp.uint32)
+        k0, k1 = key[..., 0], key[..., 1]
+        v = val[..., 0] + (k0 ^ k1)
+        return jnp.stack([v, jnp.broadcast_to(k0, v.shape), jnp.broadcast_to(k1, v.shape)], axis=-1).astype(jnp.uint32)
 
     def det_f(key, val):
         return val + jnp.float32(0.25)
+
+    def sum_f(key, val):
+        return val + jnp.sum(val)
 
     def key_f(key, val):
         return val + jax.random.uniform(key, jnp.shape(val), jnp.float32, -1.0, 1.0)
 
     fns = {}
     for n in names:
-        fns[n] = det_u if kind == "det" else key_u
+        fns[n] = {"det": det_u, "sum": sum_u, "key": key_u}[kind]
     for n in float_names:
-        fns[n] = det_f if kind == "det" else key_f
+        fns[n] = {"det": det_f, "sum": sum_f, "key": key_f}[kind]
     return fns
 
 
